@@ -6,6 +6,7 @@ import (
 	"testing"
 	"time"
 
+	"github.com/idena-network/idena-go/blockchain/fee"
 	"github.com/idena-network/idena-go/blockchain/types"
 	"github.com/idena-network/idena-go/verifutil"
 )
@@ -26,6 +27,21 @@ func optsFor(sc int, seed uint64) Options {
 	// vary the weekday/hour the chain starts at
 	o.StartTime = time.Date(2023, 8, 7+sc%7, 6+sc%13, 0, 0, 0, time.UTC)
 	return o
+}
+
+// startScenario runs the prologue. A block refused during the prologue is a disagreement
+// between replicas: a violation for the properties that decide that (C01, C02), otherwise the
+// scenario is skipped and the run is inconclusive.
+func startScenario(w *World, rep *verifutil.Report, decides bool) bool {
+	if err := w.Prologue(); err != nil {
+		if decides {
+			rep.Violation("rejected:"+ErrClass(err)+":prologue", fmt.Sprintf("world seed %d: %v", w.Opt.Seed, err), nil)
+		} else {
+			rep.Inconcl("scenario (world seed %d) could not start: %v", w.Opt.Seed, err)
+		}
+		return false
+	}
+	return true
 }
 
 func reportReject(rep *verifutil.Report, sc, i int, res *BlockResult) {
@@ -61,8 +77,9 @@ func TestVerifC02(t *testing.T) {
 	for sc := 0; sc < nScen; sc++ {
 		seed := scenSeed(sc)
 		w := NewWorld(optsFor(sc, seed))
-		if err := w.Prologue(); err != nil {
-			t.Fatal(err)
+		if !startScenario(w, rep, true) {
+			w.Cleanup()
+			continue
 		}
 		s := NewScenario(w, verifutil.NewRng(seed, 2))
 		s.Hostile, s.MaxTxs, s.PartialPct = 35, 7, 20
@@ -76,11 +93,29 @@ func TestVerifC02(t *testing.T) {
 					}
 				}
 			}
+			// gas cap: several fat transactions at once
+			if s.R.Intn(12) == 0 {
+				for _, g := range w.FatTxs(s.R) {
+					if err := s.SubmitGen(g); err == nil {
+						rep.Count("fat_txs_admitted", 1)
+					}
+				}
+			}
 			var offered int
 			res := stepObserved(s, &offered)
 			if res.Proposer != nil {
 				rep.Eval(1)
 				nIn := len(res.Block.Body.Transactions)
+				gas := 0
+				for _, tx := range res.Block.Body.Transactions {
+					gas += fee.CalculateGas(tx)
+				}
+				if uint64(gas) > types.MaxBlockSize(true)*8/10 {
+					rep.Count("proposals_near_or_over_gas_cap", 1)
+				}
+				if uint64(gas) > types.MaxBlockSize(true) {
+					rep.Count("proposals_over_gas_cap_by_one_tx", 1)
+				}
 				if offered > nIn {
 					rep.Count("proposals_with_filtered_txs", 1)
 					rep.Count("txs_filtered_while_building", offered-nIn)
@@ -131,8 +166,9 @@ func TestVerifC04(t *testing.T) {
 		o := optsFor(sc, seed)
 		w := NewWorld(o)
 		twin := w.AddTwin()
-		if err := w.Prologue(); err != nil {
-			t.Fatal(err)
+		if !startScenario(w, rep, false) {
+			w.Cleanup()
+			continue
 		}
 		s := NewScenario(w, verifutil.NewRng(seed, 4))
 		s.Hostile, s.MaxTxs = 40, 6
